@@ -190,6 +190,31 @@ def _is_str(t):
     return t.op == "const" and isinstance(t.a[0], str)
 
 
+def _boolean_valued(t):
+    if t.op in ("cmp", "bool"):
+        return True
+    if t.op == "un" and t.a[0] in ("~", "not"):
+        return _boolean_valued(t.a[1])
+    if t.op == "bin" and t.a[0] in ("&", "|"):
+        return _boolean_valued(t.a[1]) and _boolean_valued(t.a[2])
+    if t.op == "call" and callee_name(t.a[0]) in ("np.isnan", "np.isfinite", "np.isinf", "np.isclose", "np.isin", "np.any", "np.all"):
+        return True
+    if t.op in ("upd", "loop", "loopvar"):
+        o = t
+        for _ in range(40):
+            if o.op == "upd":
+                o = o.a[0]
+            elif o.op in ("loop", "loopvar"):
+                o = o.a[2]
+            else:
+                break
+        return o is not t and _boolean_valued(o)
+    if t.op == "call" and callee_name(t.a[0]) in ("np.ones", "np.zeros", "np.empty", "np.full"):
+        dt = dict(t.a[2]).get("dtype")
+        return dt is not None and ((dt.op == "builtin" and dt.a[0] == "bool") or (dt.op == "ext" and dt.a[0] in ("np.bool_", "np.bool")))
+    return False
+
+
 def _slice_is(t, lo, hi):
     return t.op == "slice" and len(t.a) == 3 and ((lo is None and is_const(t.a[0], None)) or (lo is not None and is_const(t.a[0], lo))) and ((hi is None and is_const(t.a[1], None)) or (hi is not None and is_const(t.a[1], hi))) and is_const(t.a[2], None)
 
@@ -197,6 +222,8 @@ def _slice_is(t, lo, hi):
 def binop(op, l, r):
     if op == "-" and l.op == "sub" and r.op == "sub" and l.a[0] is r.a[0] and _slice_is(l.a[1], 1, None) and _slice_is(r.a[1], None, -1):
         return call(ext("np.diff"), (l.a[0],))  # x[1:] - x[:-1] is np.diff(x) (along the first axis; the only axis of a 1-d x)
+    if op == "*" and _boolean_valued(l) and _boolean_valued(r):
+        op = "&"  # the product of two Boolean arrays is their conjunction
     if op == "+" and (_is_str(l) or _is_str(r)):
         # text concatenation: two literals fold, and the operands keep their order
         if _is_str(l) and _is_str(r):
@@ -322,6 +349,26 @@ def cmp(op, l, r):
         if op == "in":
             return boolop("or", [cmp("==", l, z) for z in r.a])
         return boolop("and", [cmp("!=", l, z) for z in r.a])
+    if op == "==" and (is_const(l, 0) or is_const(r, 0)) and not (l.op == "const" and isinstance(l.a[0], bool)) and not (r.op == "const" and isinstance(r.a[0], bool)):
+        other = r if is_const(l, 0) else l
+        if _boolean_valued(other):
+            return unop("~", other)  # mask == 0 is ~mask
+        if other.op == "bin" and other.a[0] == "+":
+            parts_ = []
+
+            def _sumparts(z):
+                if z.op == "bin" and z.a[0] == "+":
+                    _sumparts(z.a[1])
+                    _sumparts(z.a[2])
+                else:
+                    parts_.append(z)
+
+            _sumparts(other)
+            if len(parts_) >= 2 and all(_boolean_valued(z) for z in parts_):
+                acc = parts_[0]
+                for z in parts_[1:]:
+                    acc = binop("|", acc, z)
+                return unop("~", acc)  # (a + b + c) == 0 on Boolean arrays is ~(a | b | c)
     if op in ("<", "<=", "==", "!=") and l.op == "const" and r.op == "const":
         x, y = l.a[0], r.a[0]
         num = lambda v: isinstance(v, (int, float)) and not isinstance(v, bool) and v == v
@@ -463,6 +510,14 @@ def call(fn, args=(), kw=()):
             kw = tuple((k_, v_) for k_, v_ in kw if k_ != nm_)
     if name in CMP_FUNCS and len(args) == 2 and not kw:
         return cmp(CMP_FUNCS[name], args[0], args[1])
+    if name in ("np.logical_and", "np.logical_or") and len(args) == 2 and not kw and all(_boolean_valued(z) for z in args):
+        return binop("&" if name == "np.logical_and" else "|", args[0], args[1])  # on Boolean arrays: the operator form
+    if name == "np.logical_not" and len(args) == 1 and not kw and _boolean_valued(args[0]):
+        return unop("~", args[0])
+    if name == "np.invert" and len(args) == 1 and not kw and _boolean_valued(args[0]):
+        return unop("~", args[0])
+    if name == "np.concatenate" and len(args) == 1 and not kw and args[0].op == "call" and callee_name(args[0].a[0]) == "np.atleast_1d" and len(args[0].a[1]) >= 2 and not args[0].a[2]:
+        return call(ext("np.hstack"), (lst(list(args[0].a[1])),))  # concatenate(atleast_1d(a, b, c)) is hstack([a, b, c])
     if name in _NP_BIN and len(args) == 2 and not kw:
         return binop(_NP_BIN[name], args[0], args[1])  # np.subtract(a, b) is a - b
     if name in _REDUCE_ALIASES and args:
@@ -479,6 +534,8 @@ def call(fn, args=(), kw=()):
         return call(fn, args, ())  # np.diff(x, axis=0): the first axis, as for the slice difference above
     if name == "np.arange" and len(args) == 2 and not kw and is_const(args[0], 0):
         return call(fn, (args[1],), ())  # np.arange(0, n) is np.arange(n)
+    if name == "np.full" and len(args) == 2 and args[1].op == "const" and isinstance(args[1].a[0], bool) and not kw:
+        return call(ext("np.ones" if args[1].a[0] else "np.zeros"), (args[0],), (("dtype", mk("builtin", "bool")),))  # np.full(s, True)
     if name == "np.full" and len(args) == 2 and args[1].op == "const" and not isinstance(args[1].a[0], bool) and isinstance(args[1].a[0], float) and args[1].a[0] in (0.0, 1.0) and not any(k_ == "dtype" for k_, _ in kw):
         # np.full(n, 0.0) is np.zeros(n); np.full(n, 1.0) is np.ones(n)
         return call(ext("np.zeros" if args[1].a[0] == 0.0 else "np.ones"), (args[0],), kw)
